@@ -7,6 +7,7 @@ open Martian Martian.Proxy
 structure St where
   shutdown : Bool := false
   tlsListener : Bool := false
+  quiet : Bool := false        -- the client hangs up after the last scripted request (no probe)
   items : List Item := []     -- reversed
   bad : Bool := false
 
@@ -85,15 +86,16 @@ def finish (s : St) : String :=
   let evs := runConnOn s0 s.shutdown 0 items
   let per := (List.range items.length).map (summary evs)
   let left := (links evs).filter (fun c => !(unlinks evs).contains c)
-  " | ".intercalate per ++ s!" | open={b (stillOpen s0 s.shutdown items)} ctxleft={left.length} distinct={b (links evs).Nodup}"
+  " | ".intercalate per ++ s!" | open={b (!s.quiet && stillOpen s0 s.shutdown items)} ctxleft={left.length} distinct={b (links evs).Nodup}"
 
 def step (s : St) (toks : List String) : St × String :=
   match toks with
   | "conn" :: rest =>
     let tl := (kv rest "listener") == some "tls"
+    let q := (kv rest "quiet") == some "1"
     match (kv rest "shutdown").bind parseBool with
-    | some sd => ({ shutdown := sd, tlsListener := tl }, "ok")
-    | none => ({ tlsListener := tl }, "ok")
+    | some sd => ({ shutdown := sd, tlsListener := tl, quiet := q }, "ok")
+    | none => ({ tlsListener := tl, quiet := q }, "ok")
   | ["end"] => if s.bad then (init, "bad-op") else (init, finish s)
   | _ =>
     match GoLib.step toks with
